@@ -129,6 +129,31 @@ def run(ctx, bt, scale=1):
         ctx.evaluations += 1
         ctx.classes.add(("fi", tuple(spec["kinds"]), spec["sched"], spec["perturb_plan"]["mode"], spec["perturb_plan"]["pos"]))
         run_pair(ctx, bt, spec, build_fi)
+    # programs driven by supplied frames other than prices (a statistic published on a subset of the dates, with and without a lag;
+    # a signal frame; dated target weights): these are where a look-up can reach past `now`
+    for _ in range(ctx.scale(80, 1200) * scale):
+        spec = R.gen_run_spec(ctx.rng, nested=False, T=ctx.rng.randint(8, 16))
+        tk = spec["tickers"]
+        ds = pd.DatetimeIndex(spec["dates"])
+        gap = max([1] + [int((b - a).days) for a, b in zip(ds[:-1], ds[1:])])
+        kind = ctx.rng.choice(["stat", "stat", "stat", "where", "target"])
+        sched = ["RunDaily", True, False, False]
+        if kind == "stat":
+            st = [sched, ["SelectAll"], ["SetStatSelectN", ctx.rng.randint(0, 10 ** 6), ctx.rng.randint(1, max(1, len(tk) - 1)), gap * ctx.rng.randint(0, 2), ctx.rng.random() < 0.5],
+                  ["WeighEqually"], ["Rebalance"]]
+        elif kind == "where":
+            st = [sched, ["SelectAll"], ["SelectWhere", ctx.rng.randint(0, 10 ** 6)], ["WeighEqually"], ["Rebalance"]]
+        else:
+            st = [sched, ["SelectAll"], ["WeighTarget", ctx.rng.randint(0, 10 ** 6)], ["Rebalance"]]
+        spec["tree"] = {"name": "top", "tickers": list(tk), "kids": [], "stack": st}
+        for t in tk:
+            spec["prices"][t] = [p if p is not None else 10.0 for p in spec["prices"][t]]
+        spec["perturb_plan"] = gen_plan(ctx.rng, spec["dates"])
+        if spec["perturb_plan"]["mode"] == "x10":
+            spec["perturb_plan"]["mode"] = "random"     # a common factor leaves every ranking as it is
+        ctx.evaluations += 1
+        ctx.classes.add(("frames", kind, spec["perturb_plan"]["mode"], spec["perturb_plan"]["pos"]))
+        run_pair(ctx, bt, spec, build_program)
     # risk programs: UpdateRisk + HedgeRisks over unit-risk tables that change on every date (FixedIncomeStrategy, hedge instruments
     # with multipliers, lazily created instruments); the tables - and nothing else - are perturbed after the cut
     from .. import risk_lib as RL
